@@ -275,6 +275,8 @@ const (
 	ClsFinite  = 0
 	ClsExtreme = 1
 	ClsSpecial = 2
+	ClsInf     = 3 // finite values with a few infinities (mostly +Inf) and no NaN: reductions only
+	ClsHuge    = 4 // magnitudes near the overflow/underflow thresholds with both signs: running reductions only
 )
 
 // ClassName names a data class.
@@ -284,6 +286,10 @@ func ClassName(c int) string {
 		return "finite"
 	case ClsExtreme:
 		return "extreme"
+	case ClsInf:
+		return "inf"
+	case ClsHuge:
+		return "huge"
 	}
 	return "special"
 }
@@ -293,6 +299,13 @@ var ext64 = []float64{0, math.Copysign(0, -1), 5e-324, -5e-324, 1.5e-323, 2.2250
 
 var ext32 = []float64{0, math.Copysign(0, -1), 1e-45, -1e-45, 4e-45, 1.17549435e-38, -1.17549435e-38,
 	1e-30, -1e-30, 1e-20, -1e-20, 3e-20, 1e19, 1e20, -1e20, 1e30, -1e30, 3e38, math.MaxFloat32, -math.MaxFloat32}
+
+// huge64/huge32: sums of two can overflow while the running sum stays small,
+// products of two can leave the range while the running product stays near 1.
+var huge64 = []float64{1e308, -1e308, 1.5e308, -1.5e308, 5e307, -5e307, math.MaxFloat64, -math.MaxFloat64, 0, 1, -1, 2, 0.5,
+	1e300, 1e-300, 1e200, 1e-200, 1e160, 1e-160, -1e300, -1e-300, 1e100, 1e-100}
+
+var huge32 = []float64{3e38, -3e38, 2e38, -2e38, math.MaxFloat32, -math.MaxFloat32, 0, 1, -1, 2, 0.5, 1e30, 1e-30, 1e25, 1e-25, -1e30, -1e-30, 1e15, 1e-15}
 
 var specials = []float64{math.NaN(), math.Inf(1), math.Inf(-1)}
 
@@ -310,6 +323,18 @@ func (g *Gen) Lane() float64 {
 	case ClsExtreme:
 		if r.Intn(10) < 6 {
 			return g.extreme()
+		}
+	case ClsHuge:
+		if g.W32 {
+			return huge32[r.Intn(len(huge32))]
+		}
+		return huge64[r.Intn(len(huge64))]
+	case ClsInf:
+		switch k := r.Intn(40); {
+		case k < 4:
+			return math.Inf(1)
+		case k == 4:
+			return math.Inf(-1)
 		}
 	case ClsSpecial:
 		switch k := r.Intn(20); {
